@@ -631,9 +631,10 @@ def check_property(prop, tier, seed, only=None):
             'violations': len(violations),
         }
         evdir = os.environ.get('VERIF_EVIDENCE_DIR', os.path.join(ROOT, 'evidence'))
-        os.makedirs(evdir, exist_ok=True)
-        with open(os.path.join(evdir, prop + '.json'), 'w') as f:
-            json.dump(ev, f, indent=1)
+        if prop != 'DEV' or 'VERIF_EVIDENCE_DIR' in os.environ:  # the development mode never writes into /verif/evidence
+            os.makedirs(evdir, exist_ok=True)
+            with open(os.path.join(evdir, prop + '.json'), 'w') as f:
+                json.dump(ev, f, indent=1)
         log('== %s: obligations=%d discharged=%d harnesses=%d violations=%d inconclusive=%d known=%d wall=%.0fs exit=%d' % (
             prop, obligations, discharged, len(hs), len(violations), len(inconclusive), len(seen), wall, exit_code))
         return exit_code
